@@ -2,6 +2,7 @@
 from lib import core, gen
 
 LEVEL = 'proof'
+HISTORY = {}                  # id -> calls made before it on the same thread (history cases)
 BBH_FEATURES = ['segment', 'oracle']      # harness command families this check needs (fallback build, lib/core.py build_bbh)
 GOALS = ['halt', 'blank', 'spin']
 SEGS = [2, 3, 4, 5, 6, 7, 8]
@@ -161,6 +162,18 @@ def run(rep, tier, seed):
     h = core.run_bbh(lines)
     m = core.run_bbm(lines)
     diffs = core.diff_answers(cs, h, m)
+    # HISTORIES: sibling programs (one-slot edits of one table, also tables of 9+ slots) asked in a row on ONE thread:
+    # the answer must not depend on what was asked before (per-thread caches, memo tables with lossy keys, reused buffers)
+    hrng = core.mkrng(seed, 'C05-hist')
+    hcs = gen.history_cases(hrng, 120 if tier == 'quick' else 1500, lambda r, S, C: (lambda g, s: (lambda p: f'seg|{g}|{p}|{S},{C}|{s}'))(r.choice(GOALS), r.choice([2, 3, 4, 5])))
+    hl = [f'{i}|{l}' for i, l in hcs]
+    hh, hm = core.run_bbh(hl, threads=1), core.run_bbm(hl)
+    diffs += core.diff_answers(hcs, hh, hm)
+    cs = cs + hcs
+    h.update(hh)
+    m.update(hm)
+    global HISTORY
+    HISTORY = gen.history_of(hcs)
     # the wrappers again, consecutive questions about one program on ONE thread (history independence)
     rngw = core.mkrng(seed, 'C05w')
     wcs = []
@@ -212,6 +225,7 @@ def run(rep, tier, seed):
 
 def search(rep, diffs, fails):
     for cid, line, why in fails[:3]:
+        why = gen.hist_note(why, HISTORY.get(cid))
         f = line.split('|')
         rep.violation({'kind': 'property-failure', 'entry': f[0], 'goal': f[1], 'program': f[2],
                        'args': f[3:], 'why': why}, found=True)
